@@ -18,6 +18,7 @@ struct c16_res {
     long mallocs;          /* allocations observed inside the call window */
     long heap_delta;
     int snap_changed;
+    int balanced_only;      /* constructor wrappers: the object is allocated and released again -- only the balance is required */
     char snap_what[96];
 };
 struct c16_case { void (*fn)(struct c16_res *, int); const char *func; const char *desc; const char *vc; int has_scalar; };
@@ -76,13 +77,15 @@ static void c16_snap_check(struct c16_res *r)
 /* ---- factories for valid sample arguments ---- */
 enum { KL, KV, KM };
 static spif_charptr_t mk_cstr(void) { return (spif_charptr_t) vh_heapstr("abc"); }
-static spif_str_t mk_str(void) { return spif_str_new_from_ptr((spif_charptr_t) "sample"); }
-static spif_ustr_t mk_ustr(void) { return spif_ustr_new_from_ptr((spif_charptr_t) "sample"); }
-static spif_mbuff_t mk_mbuff(void) { return spif_mbuff_new_from_ptr((spif_byteptr_t) "sam\0ple", 7); }
-static spif_obj_t mk_obj(void) { return (spif_obj_t) spif_str_new_from_ptr((spif_charptr_t) "obj"); }
-static spif_objpair_t mk_pair(void) { return spif_objpair_new_from_both(mk_obj(), mk_obj()); }
-static spif_tok_t mk_tok(void) { spif_tok_t t = spif_tok_new_from_ptr((spif_charptr_t) "a b c"); spif_tok_eval(t); return t; }
-static spif_url_t mk_url(void) { return spif_url_new_from_ptr((spif_charptr_t) "http://user:pw@host:80/path?q"); }
+/* object samples by variant: odd variants are the minimal / partly empty forms of each class */
+static spif_str_t mk_str(int v) { return (v & 1) ? spif_str_new() : spif_str_new_from_ptr((spif_charptr_t) "sample"); }
+static spif_ustr_t mk_ustr(int v) { return (v & 1) ? spif_ustr_new() : spif_ustr_new_from_ptr((spif_charptr_t) "sample"); }
+static spif_mbuff_t mk_mbuff(int v) { return (v & 1) ? spif_mbuff_new() : spif_mbuff_new_from_ptr((spif_byteptr_t) "sam\0ple", 7); }
+static spif_obj_t mk_obj0(void) { return (spif_obj_t) spif_str_new_from_ptr((spif_charptr_t) "obj"); }
+static spif_obj_t mk_obj(int v) { return (v & 1) ? (spif_obj_t) spif_objpair_new_from_value(mk_obj0()) : mk_obj0(); }     /* odd: a pair without a key */
+static spif_objpair_t mk_pair(int v) { return (v & 1) ? spif_objpair_new_from_value(mk_obj0()) : spif_objpair_new_from_both(mk_obj0(), mk_obj0()); }
+static spif_tok_t mk_tok(int v) { if (v & 1) return spif_tok_new(); spif_tok_t t = spif_tok_new_from_ptr((spif_charptr_t) "a b c"); spif_tok_eval(t); return t; }
+static spif_url_t mk_url(int v) { return (v & 1) ? spif_url_new() : spif_url_new_from_ptr((spif_charptr_t) "http://user:pw@host:80/path?q"); }
 static spif_regexp_t mk_regexp(void) { return spif_regexp_new_from_ptr((spif_charptr_t) "a.c"); }
 static spif_socket_t mk_socket(void) { return spif_socket_new(); }
 static void fill(spif_obj_t c, int k)
@@ -119,7 +122,7 @@ static void *mk_dlist_iter(void) { return (void *) SPIF_LIST_ITERATOR((spif_list
 static spif_iterator_t mk_iter(void) { return SPIF_LIST_ITERATOR((spif_list_t) mk_array(KL)); }
 static FILE *mk_fp(void) { FILE *f = tmpfile(); if (f) { fputs("line one\nline two\n", f); rewind(f); } return f; }
 static int mk_fd(void) { int fd = memfd_create("c16", 0); if (fd >= 0) { if (write(fd, "data\n", 5) < 0) { } lseek(fd, 0, SEEK_SET); } return fd; }
-static spif_obj_t *mk_objarray(void) { spif_obj_t *a = malloc(4 * sizeof *a); for (int i = 0; i < 4; i++) a[i] = mk_obj(); return a; }
+static spif_obj_t *mk_objarray(void) { spif_obj_t *a = malloc(4 * sizeof *a); for (int i = 0; i < 4; i++) a[i] = mk_obj0(); return a; }
 static spif_charptr_t *mk_strv(void) { spif_charptr_t *v = malloc(3 * sizeof *v); v[0] = mk_cstr(); v[1] = mk_cstr(); v[2] = NULL; return v; }
 static spif_linked_list_item_t mk_llitem(void) { return mk_llist(KL)->head; }
 static spif_dlinked_list_item_t mk_dlitem(void) { return mk_dlist(KL)->head; }
@@ -131,8 +134,8 @@ static char *c16_builtin(char *a) { return a; }
 #include "c16_cases.inc"
 
 /* (runtime debug level, silent) cells */
-static const int CELLS_Q[][2] = { {0, 0}, {1, 0}, {1, 1} };
-static const int CELLS_T[][2] = { {0, 0}, {1, 0}, {1, 1}, {3, 0}, {5, 0}, {0, 1} };
+static const int CELLS_Q[][2] = { {0, 0}, {1, 0}, {1, 1}, {5, 0} };
+static const int CELLS_T[][2] = { {0, 0}, {1, 0}, {1, 1}, {5, 0}, {2, 0}, {3, 0}, {0, 1} };
 
 static void run_child(struct c16_case *c, int level, int silent_on, int variant, int rfd, int efd)
 {
@@ -155,7 +158,7 @@ int main(int argc, char **argv)
     vh_init(argc, argv, "C16");
     int thorough = !strcmp(vh_tier, "thorough");
     const int (*cells)[2] = thorough ? CELLS_T : CELLS_Q;
-    int nlev = thorough ? 6 : 3;
+    int nlev = thorough ? 7 : 4;
     signal(SIGPIPE, SIG_IGN);
     while (vh_next_case()) {
         if (VH_CASE_TRY()) {
@@ -196,7 +199,7 @@ int main(int argc, char **argv)
             } else if (normal) {
                 if (!res.value_ok) { snprintf(k1, sizeof k1, "%s:value", c->func); vh_fail(k1, "%s at level %d: returned %s", c->desc, level, res.got); }
                 if (res.snap_changed) { snprintf(k1, sizeof k1, "%s:argument-changed", c->func); vh_fail(k1, "%s at level %d: another argument (%s) was modified", c->desc, level, res.snap_what); }
-                if (res.mallocs != 0 || res.heap_delta != 0) { snprintf(k1, sizeof k1, "%s:allocated", c->func); vh_fail(k1, "%s at level %d: %ld allocations, heap delta %ld bytes during the call", c->desc, level, res.mallocs, res.heap_delta); }
+                if ((!res.balanced_only && res.mallocs != 0) || res.heap_delta != 0) { snprintf(k1, sizeof k1, "%s:allocated", c->func); vh_fail(k1, "%s at level %d: %ld allocations, heap delta %ld bytes during the call", c->desc, level, res.mallocs, res.heap_delta); }
                 vh_count(level == 0 ? "soft_fail_level0" : "soft_fail_level_ge1", 1);
                 if (level == 0 && strstr(diag, "Warning:")) vh_count("warning_printed_level0", 1);
             } else {
